@@ -19,6 +19,7 @@ import (
 	"testing"
 	"time"
 
+	libhead "github.com/celestiaorg/go-header"
 	libshare "github.com/celestiaorg/go-square/v4/share"
 	"github.com/celestiaorg/rsmt2d"
 
@@ -247,9 +248,19 @@ func vsBlobSubWorld(s *verifsim.Sim) {
 	chain := verifhdr.NewChain()
 	chain.Add(verifhdr.MakeHeader(1, t0, nil))
 	hsvc := &Service{sub: chain}
+	hdrMiss := 0 // header look-ups that still answer "not found" (the store lags behind the subscription)
 	getByHeight := func(_ context.Context, height uint64) (*hdr.ExtendedHeader, error) {
 		w.mu.Lock()
 		defer w.mu.Unlock()
+		if hdrMiss > 0 {
+			hdrMiss--
+			s.Fault("header-lookup-lags")
+			// each failing look-up takes a little simulated time, so that a retry loop cannot spin at one instant
+			w.mu.Unlock()
+			time.Sleep(50 * time.Millisecond)
+			w.mu.Lock()
+			return nil, fmt.Errorf("verif: header %d: %w", height, libhead.ErrNotFound)
+		}
 		if b := w.blocks[height]; b != nil {
 			return b.h, nil
 		}
@@ -380,6 +391,13 @@ func vsBlobSubWorld(s *verifsim.Sim) {
 			}
 		}
 		if !faultFree && !stopped {
+			if !faultFree && hdrMiss == 0 {
+				alts = append(alts, verifsim.Alt{Label: "header look-ups lag", Weight: 1, Do: func() {
+					w.mu.Lock()
+					hdrMiss = 1 + s.Choose(3, "lagging_lookups")
+					w.mu.Unlock()
+				}})
+			}
 			alts = append(alts, verifsim.Alt{Label: "service stop", Weight: 1, Do: func() {
 				s.Fault("service-stop")
 				stopped = true
